@@ -220,6 +220,12 @@ class TracerReplayer:
             r = X[a] ** int(ins["n"])
         elif op == "sum":
             r = al.sum(X[a])
+        elif op == "prod":
+            r = al.prod(X[a])
+        elif op == "sq":
+            r = al.square(X[a])
+        elif op == "recip":
+            r = al.reciprocal(X[a])
         elif op == "const":
             r = al.Function(float(to_frac(ins["c"])))
         else:
